@@ -71,6 +71,7 @@ EXEC_PROPS = {
     "C13": (["C13"], (16, 400, 6), (16, 12000, 8)),
     "C09": (["C09"], (16, 400, 6), (16, 12000, 8)),
     "C06": (["C06"], (16, 400, 6), (16, 12000, 8)),
+    "C04": (["C04"], (16, 400, 6), (16, 12000, 8)),
 }
 
 def run_exec(ctx):
@@ -168,6 +169,7 @@ API_PROPS = {
     "C16": (["C16"], (8, 1500), (16, 40000), "api"),
     "C17": (["C17"], (8, 1500), (16, 40000), "api"),
     "C18": (["C18"], (8, 2500), (16, 60000), "escape"),
+    "C01": (["C01"], (16, 1500), (16, 40000), "spec"),
 }
 
 def api_single(pat, flags, hay_hex):
@@ -191,7 +193,7 @@ def run_api(ctx):
     known = load_known()
     summary, mism, pv = {}, [], []
     if not any("build failed" in b for b in broken):
-        summary, mism, pv, errs = run_stream_shards(stream, "api", ctx.seed, shards, n)
+        summary, mism, pv, errs = run_stream_shards(stream, "spec" if stream == "spec" else "api", ctx.seed, shards, n, extra="4" if stream == "spec" else "")
         for e in errs: broken.append("pipeline: " + e)
     ctx.note("correspondence(api): %s mismatches=%d propviol(all kinds)=%d" % (summary, len(mism), len(pv)))
     mine = [pv_case(l) for l in pv if parse_kv(l).get("prop") in kinds]
